@@ -239,3 +239,99 @@ def guidance_repeats(ans):
     for t in ans[2]:
         walk(t)
     return dup[0]
+
+
+def ground_subterms(g):
+    """all ground types (and their subterms) written in a goal"""
+    out = []
+
+    def ty(t):
+        if t[0] == "adt":
+            if not pg.ty_vars(t) and t not in out:
+                out.append(t)
+            for a in t[2]:
+                ty(a)
+
+    def walk(x):
+        k = x[0]
+        if k == "atom":
+            for t in x[1][1]:
+                ty(t)
+        elif k == "eq":
+            ty(x[1]); ty(x[2])
+        elif k == "and":
+            for y in x[1]:
+                walk(y)
+        elif k in ("forall", "exists"):
+            walk(x[2])
+        elif k == "if":
+            for vs, h, body in x[1]:
+                for t in h[1]:
+                    ty(t)
+                for b in body:
+                    for t in b[1]:
+                        ty(t)
+            walk(x[2])
+        elif k == "not":
+            walk(x[1])
+    walk(g)
+    return out
+
+
+def inv_universe(it, limit=7):
+    """finite universe over which the inversion reading instantiates the placeholders: the
+    small universe of the program, every ground type written in the goal (with subterms), and
+    one opaque constant"""
+    st = it.prog.symtab()
+    u = list(pg.universe(it.prog, depth=2, limit=limit))
+    for t in ground_subterms(it.goal):
+        if t not in u:
+            u.append(t)
+    return [pg.answer_ty_model(t, st, {}) for t in u[:14]] + [("TPh", 900)]
+
+
+INV_IMPORTS = ("Logic.Contract", "Logic.Inv")
+
+
+def inv_readings(workdir, tag, items, ks, fuel):
+    """for the closed items `ks` with the shape `not` below a hypothesis mentioning a goal variable:
+    {k: (shape_in_coq, literal_reading, inversion_reading)} with readings 0 false / 1 true / 2 inconclusive"""
+    defs, exprs = {}, []
+    for k in ks:
+        it = items[k]
+        st = it.prog.symtab()
+        pn, gn, un = "P%d" % it.pidx, "g%d" % k, "U%d" % k
+        if pn not in defs:
+            defs[pn] = ("program", pg.to_model(it.prog))
+        defs[gn] = ("goal", pg.goal_model(it.goal, st))
+        defs[un] = ("list ty", inv_universe(it))
+        exprs.append(([gn], logic.bb("neg_inv_shape false %s" % gn)))
+        exprs.append(([pn, gn], logic.ob("eval_goal %d %s [] [] %s" % (fuel, pn, gn))))
+        exprs.append(([pn, gn, un], logic.ob("eval_inv %d %s %s [] [] %s" % (fuel, un, pn, gn))))
+    if not exprs:
+        return {}
+    codes, failures = logic.coq_codes(workdir, tag, defs, exprs, shard=max(9, (len(exprs) // 48 + 1) * 3), imports=INV_IMPORTS)
+    if failures:
+        raise core.CheckFailure("coq evaluation failed: %s" % (failures[0],))
+    return {k: (codes[3 * j], codes[3 * j + 1], codes[3 * j + 2]) for j, k in enumerate(ks)}
+
+
+def neg_inv_verdict(reading, solver_name, kind):
+    """How an answer to a goal of the neg-inv shape is judged.  reading = (shape, lit, inv).
+    Returns one of: None (not special: judge as usual), "known" (in the class, answer = chalk's
+    inversion reading), "violation", "inconclusive"."""
+    shape, lit, inv = reading
+    if shape != 1:
+        return None
+    if inv == 2 or lit == 2:
+        return "inconclusive"
+    is_rec = solver_name.startswith("rec")
+    if inv == 0 and is_rec and kind.startswith("Ambig"):
+        return "known"            # recursive refute needs a *unique* solution of the inverted goal
+    if lit == 1 and inv == 0:
+        if kind in ("Timeout", "Abort", "Panic", "GoalError"):
+            return "inconclusive"
+        return "known" if kind == "NoSolution" else "violation"
+    if lit == 1 and inv == 1 and kind == "NoSolution":
+        return "inconclusive"     # an inversion witness may lie outside the finite universe
+    return None
